@@ -233,7 +233,28 @@ func (ai *affInterp) run(fn *ssa.Function, args []aval, ctx actx) ([]aoutcome, e
 				env[x] = ai.convert(x, env, ctx)
 			case *ssa.ChangeType:
 				env[x] = ai.eval(x.X, env)
+			case *ssa.Alloc:
+				// a local kept in memory (captured by a closure, address taken): its content is tracked in env under the cell
+				if cellWrittenInClosures(x) {
+					env[x] = abad("local written by a closure")
+				}
+			case *ssa.Store:
+				if al, ok := x.Addr.(*ssa.Alloc); ok {
+					if cur, had := env[al]; !had || cur.bad == "" {
+						env[al] = ai.eval(x.Val, env)
+					}
+				}
+			case *ssa.MakeClosure:
+				// creating a closure computes nothing here (one that writes a tracked local poisons that local above)
 			case *ssa.UnOp:
+				if al, ok := x.X.(*ssa.Alloc); ok && x.Op == token.MUL {
+					if v, had := env[al]; had {
+						env[x] = v
+					} else {
+						env[x] = abad("load of an unset local")
+					}
+					continue
+				}
 				if x.Op == token.SUB {
 					v := ai.eval(x.X, env)
 					if v.bad == "" {
